@@ -2,7 +2,8 @@
    transition system.  Definitions only.
 
    Rust items mirrored (crates/ignore/src/walk.rs):
-     WalkParallel::visit      -> nthreads (threads()), start (no workers for an empty root list), init
+     WalkParallel::visit      -> pre_loop / visit_start (the root loop with its error entries, run by the calling
+                                 thread), nthreads (threads()), start (no workers for an empty root list), init
                                  (quit_now = false, active_workers = threads, one Worker per Stack)
      Stack::new_for_each_thread -> distribute (roots pushed round-robin, LIFO deques)
      Stack::push / pop / steal  -> the PPush/PSendQuit, PRecv, PSteal cases of own_step, and steal_step
@@ -221,5 +222,34 @@ Definition init (n : nat) (f : forest) : st :=
 (* WalkParallel::visit returns before creating workers when there is no root *)
 Definition start (n : nat) (f : forest) : option st :=
   match f with [] => None | _ => Some (init n f) end.
+
+(* WalkParallel::visit, the loop over the root paths that runs in the calling thread before any
+   worker exists: a path that cannot be turned into an entry (device_num fails under
+   same_file_system, or DirEntryRaw::from_path fails) is handed to the caller's visitor as an error;
+   ONLY a Quit answer returns from visit ("if visitor.visit(Err(err)).is_quit() { return; } continue;"),
+   Continue and Skip go on with the next path; good paths are collected, in order, as the initial
+   Work messages. *)
+Inductive root := RootOk (t : tree) | RootErr (k : nat).     (* k identifies the error entry *)
+
+Fixpoint pre_loop (eresp : nat -> walk_state) (roots : list root) (stack : list tree) : option (list tree) :=
+  match roots with
+  | [] => Some stack
+  | RootOk t :: r => pre_loop eresp r (stack ++ [t])
+  | RootErr k :: r =>
+      match eresp k with
+      | WQuit => None
+      | _ => pre_loop eresp r stack
+      end
+  end.
+
+(* the state in which the workers are spawned, if they are *)
+Definition visit_start (eresp : nat -> walk_state) (n : nat) (roots : list root) : option st :=
+  match pre_loop eresp roots [] with
+  | Some f => start n f
+  | None => None
+  end.
+
+Definition good_roots (roots : list root) : forest :=
+  flat_map (fun r => match r with RootOk t => [t] | RootErr _ => [] end) roots.
 
 Definition all_exited (s : st) : Prop := Forall (fun p => p = PExit) (pcs s).
